@@ -197,6 +197,15 @@ func Families(tier string) []Family {
 				f.Defs = append(f.Defs, Def{Cfg: c, Tokens: toks, L: lim(tier, 3, 4)})
 			}
 		}
+		// SetCalled: an option marked as called by the program itself
+		for _, kind := range []string{"bool", "string", "sslice"} {
+			c := Cfg{Mode: 0}
+			c.Nodes = []NodeCfg{rootNode(0, false)}
+			o := multi(kind, "opt", 1, 1, 2, "o", "alt")
+			o.SetCalled = true
+			c.Opts = []OptCfg{o, opt("bool", "other", 1)}
+			f.Defs = append(f.Defs, Def{Cfg: c, Tokens: Ts("--opt", "--alt=x", "--other", "x"), L: 2})
+		}
 		// Called / CalledAs / Value read through the top-level object after a wrapper or the help command was selected
 		for mode := 0; mode < 2; mode++ {
 			c := Cfg{Mode: mode}
